@@ -444,3 +444,12 @@ func GoEnvPlain() []string {
 	}
 	return append(env, "GOFLAGS=-mod=mod", "GOPROXY=off", "GOCACHE="+filepath.Join(CacheDir(), "gocache"))
 }
+
+
+// MemLimited returns a command that runs bin with its address space capped at gb GiB, so that a
+// harness whose exploration runs away (for instance on a changed tree that spins) fails by itself
+// instead of exhausting the machine. Not for -race binaries (the race runtime reserves terabytes).
+func MemLimited(gb int, bin string, args ...string) *exec.Cmd {
+	script := fmt.Sprintf(`ulimit -v %d; exec "$0" "$@"`, gb<<20)
+	return exec.Command("/bin/sh", append([]string{"-c", script, bin}, args...)...)
+}
